@@ -205,7 +205,6 @@ def _close(x: float, val: int, rec, un: int, ud: int) -> bool:
 
 def _replay_job(ji):
     rec, h, rows, duration = _JOBS[ji]
-    iid = rec["id"]
     bad = []          # (kind, raw, detail)
     n = 0
     unit = {"1": Fraction(1), "pi": Fraction(math.pi), "dur": Fraction(duration or 1.0)}[rec["unit"]]
